@@ -1,7 +1,9 @@
 package errors
 
 import (
+	stderrors "errors"
 	"fmt"
+	"io/fs"
 	"strings"
 
 	"github.com/Vedant9500/WTF/internal/utils"
@@ -41,14 +43,20 @@ func NewDatabaseErrorWithContext(op, path string, cause error) error {
 	}
 
 	// Determine the specific error type and create appropriate user-friendly error
+	// The error chain decides first; the message text is only a fallback, and a
+	// decoding error is recognised before it because it quotes file content.
 	errStr := cause.Error()
 	switch {
+	case stderrors.Is(cause, fs.ErrNotExist):
+		return NewDatabaseNotFoundError(path, cause)
+	case stderrors.Is(cause, fs.ErrPermission):
+		return NewDatabasePermissionError(path, cause)
+	case strings.Contains(errStr, "yaml:") || strings.Contains(errStr, "unmarshal"):
+		return NewDatabaseParseError(path, cause)
 	case strings.Contains(errStr, "no such file or directory"):
 		return NewDatabaseNotFoundError(path, cause)
 	case strings.Contains(errStr, "permission denied"):
 		return NewDatabasePermissionError(path, cause)
-	case strings.Contains(errStr, "yaml:") || strings.Contains(errStr, "unmarshal"):
-		return NewDatabaseParseError(path, cause)
 	default:
 		return NewAppError(ErrorTypeDatabase, fmt.Sprintf("database %s failed for %s", op, path), cause).
 			WithUserMessage(fmt.Sprintf("Failed to %s database file at '%s': %v", op, path, cause)).
